@@ -391,6 +391,8 @@ pub struct Progress {
     pub since: Vec<Mutex<Instant>>,
     /// worker counters (constructed, dropped) when the case began
     pub workers_base: (usize, usize),
+    /// kernel thread ids of the client threads (0 = not started)
+    pub tids: Vec<AtomicU64>,
 }
 
 impl Progress {
@@ -399,7 +401,32 @@ impl Progress {
             slots: (0..n).map(|_| AtomicU64::new(0)).collect(),
             since: (0..n).map(|_| Mutex::new(Instant::now())).collect(),
             workers_base: stretto::verif::workers(),
+            tids: (0..n).map(|_| AtomicU64::new(0)).collect(),
         })
+    }
+    fn register(&self, t: usize) {
+        let tid = unsafe { libc::syscall(libc::SYS_gettid) } as u64;
+        self.tids[t].store(tid, Ordering::SeqCst);
+    }
+    /// true if every client that is inside a call is asleep in the kernel (state S or D): a thread
+    /// that is merely starved of CPU shows R and must not be mistaken for a blocked one
+    fn blocked_clients_asleep(&self) -> bool {
+        for (t, s) in self.slots.iter().enumerate() {
+            let op = (s.load(Ordering::SeqCst) >> 48) as usize;
+            if op == 0 || op == 9 {
+                continue;
+            }
+            let tid = self.tids[t].load(Ordering::SeqCst);
+            if tid == 0 {
+                return false;
+            }
+            let st = std::fs::read_to_string(format!("/proc/self/task/{}/stat", tid)).unwrap_or_default();
+            let state = st.rsplit(')').next().unwrap_or("").trim_start().chars().next().unwrap_or('R');
+            if state != 'S' && state != 'D' {
+                return false;
+            }
+        }
+        true
     }
     fn enter(&self, t: usize, op: usize) {
         let done = self.slots[t].load(Ordering::Relaxed) & 0xffff_ffff_ffff;
@@ -486,15 +513,17 @@ fn watch<R: Send>(progress: &Arc<Progress>, grace: Duration, mk_hang: &(dyn Fn(&
             if last_change.elapsed() > grace {
                 let c0 = cpu_ticks();
                 let w0 = stretto::verif::workers();
+                let asleep0 = progress.blocked_clients_asleep();
                 std::thread::sleep(Duration::from_millis(400));
                 let c1 = cpu_ticks();
+                let asleep1 = progress.blocked_clients_asleep();
                 if progress.total() != last || done.load(Ordering::SeqCst) {
                     last_change = Instant::now();
                     continue;
                 }
                 let (desc, blocked) = progress.describe();
                 let w1 = stretto::verif::workers();
-                let flat = c1.saturating_sub(c0) <= 2;
+                let flat = c1.saturating_sub(c0) <= 2 && asleep0 && asleep1;
                 let ev = format!(
                     "no client progress for {} ms; {}; background processors constructed {} / dropped {} (unchanged over the window: {}); process CPU ticks in the last 400 ms: {}; async tasks started {} finished {}",
                     last_change.elapsed().as_millis(),
@@ -543,6 +572,12 @@ struct Shared {
     violations: Mutex<Vec<SResult>>,
     history: Mutex<Vec<String>>,
     clears: AtomicU32,
+    /// logical clock for "returned before ... began after"
+    lclock: AtomicU64,
+    /// insert(v) returned true at this stamp
+    ret_stamp: Mutex<HashMap<Val, u64>>,
+    /// (call began, call returned Ok) of every clear()
+    clear_spans: Mutex<Vec<(u64, u64)>>,
 }
 
 fn perturb_hook(seed: u64) {
@@ -645,6 +680,9 @@ fn run_inner(case: &StressCase) -> SResult {
         violations: Mutex::new(Vec::new()),
         history: Mutex::new(Vec::new()),
         clears: AtomicU32::new(0),
+        lclock: AtomicU64::new(1),
+        ret_stamp: Mutex::new(HashMap::new()),
+        clear_spans: Mutex::new(Vec::new()),
     });
     if case.kind == Kind::Reclaim {
         return run_reclaim(case, api, &cb);
@@ -669,6 +707,7 @@ fn run_inner(case: &StressCase) -> SResult {
                 let barrier = barrier.clone();
                 let kind = case.kind;
                 s.spawn(move || {
+                    progress.register(t);
                     barrier.wait();
                     client(t, kind, api, script, &sh, &progress);
                     progress.finish(t);
@@ -747,6 +786,7 @@ fn run_inner(case: &StressCase) -> SResult {
     let cfg = case.cfg.clone();
     let check = move || -> Option<SResult> {
         let t = n;
+        post.register(t);
         match kind {
             Kind::Close => {
                 if !drop_only {
@@ -988,6 +1028,8 @@ fn client(t: usize, kind: Kind, api: Box<dyn Api>, script: &[SOp], sh: &Shared, 
                         // a clear()/close() that overlapped the call leaves an odd or changed number
                         let seq_after = sh.clear_seq.load(Ordering::SeqCst);
                         sh.accepted.lock().push((v, if seq_after == seq_before { seq_before } else { u32::MAX }));
+                        let st = sh.lclock.fetch_add(1, Ordering::SeqCst);
+                        sh.ret_stamp.lock().insert(v, st);
                         if kind == Kind::Barrier {
                             if touched.insert(k) {
                                 expect.insert(k, Some(v));
@@ -1070,6 +1112,7 @@ fn client(t: usize, kind: Kind, api: Box<dyn Api>, script: &[SOp], sh: &Shared, 
             SOp::Get { k } | SOp::GetMut { k } => {
                 let k = if kind == Kind::Barrier { own_key(t, *k) } else { *k };
                 let stamp = sh.cb.clock.load(Ordering::SeqCst);
+                let gstart = sh.lclock.fetch_add(1, Ordering::SeqCst);
                 let mutable = matches!(op, SOp::GetMut { .. });
                 progress.enter(t, if mutable { 5 } else { 4 });
                 let r = if mutable { a.get_mut(k as u64) } else { a.get(k as u64) };
@@ -1089,8 +1132,17 @@ fn client(t: usize, kind: Kind, api: Box<dyn Api>, script: &[SOp], sh: &Shared, 
                             sh.violations.lock().push(SResult::violation(&["C08", "C02"], "lookup_after_callback", m));
                         }
                     }
-                    if sh.closed_ok.load(Ordering::SeqCst) && kind == Kind::Close {
-                        // may have begun before the close returned: not checked here
+                    // written before a clear() that had returned before this lookup began
+                    let tr = sh.ret_stamp.lock().get(&v).copied();
+                    if let Some(tr) = tr {
+                        let hit = sh.clear_spans.lock().iter().find(|(s, e)| *s > tr && *e < gstart).copied();
+                        if let Some((cs, ce)) = hit {
+                            sh.violations.lock().push(SResult::violation(
+                                &["C11", "C02"],
+                                "served_after_clear",
+                                format!("thread {}: lookup of key {} (began at logical time {}) returned {} whose insert had returned at {} - before a clear() that began at {} and returned at {}", t, k, gstart, v, tr, cs, ce),
+                            ));
+                        }
                     }
                 }
             }
@@ -1145,9 +1197,14 @@ fn client(t: usize, kind: Kind, api: Box<dyn Api>, script: &[SOp], sh: &Shared, 
             }
             SOp::Clear => {
                 sh.clear_seq.fetch_add(1, Ordering::SeqCst);
+                let cstart = sh.lclock.fetch_add(1, Ordering::SeqCst);
                 progress.enter(t, 7);
                 let r = a.clear();
                 progress.leave(t);
+                if r.is_ok() {
+                    let cend = sh.lclock.fetch_add(1, Ordering::SeqCst);
+                    sh.clear_spans.lock().push((cstart, cend));
+                }
                 sh.clear_seq.fetch_add(1, Ordering::SeqCst);
                 sh.clears.fetch_add(1, Ordering::SeqCst);
                 hist(format!("clear() = {:?}", r));
@@ -1194,6 +1251,7 @@ fn own_key(t: usize, k: u32) -> u32 {
 
 fn quiescent_invariants(case: &StressCase, api: &Arc<Box<dyn Api>>, sh: &Arc<Shared>, progress: &Arc<Progress>) -> Option<SResult> {
     let t = case.threads.len();
+    progress.register(t);
     // quiesce: wait() must succeed once (retry while the buffer is full)
     let mut ok = false;
     for _ in 0..5000 {
@@ -1279,6 +1337,21 @@ fn quiescent_invariants(case: &StressCase, api: &Arc<Box<dyn Api>>, sh: &Arc<Sha
             let issued = sh.issued.lock().get(&v.key).map(|s| s.contains(v)).unwrap_or(false);
             if !issued {
                 return Some(SResult::violation(&["C08"], "callback_unknown_value", format!("callback for {} which nobody wrote", v)));
+            }
+        }
+    }
+    {
+        let stamps = sh.ret_stamp.lock();
+        let spans = sh.clear_spans.lock();
+        for e in snap.entries.iter() {
+            if let Some(tr) = stamps.get(&e.value) {
+                if let Some((cs, ce)) = spans.iter().find(|(s, _)| *s > *tr) {
+                    return Some(SResult::violation(
+                        &["C11", "C02"],
+                        "resident_after_clear",
+                        format!("at quiescence {} is resident although its insert had returned (logical time {}) before a clear() that began at {} and returned at {}", e.value, tr, cs, ce),
+                    ));
+                }
             }
         }
     }
@@ -1546,7 +1619,7 @@ pub fn stress_strategy(kind: Kind, async_pct: u32) -> BoxedStrategy<StressCase> 
             any::<bool>(),
             proptest::sample::select(vec![3i64, 6, 12, 40]),
             any::<u64>(),
-            prop_oneof![3 => Just(0u32), 1 => Just(1u32)],
+            prop_oneof![3 => Just(0u32), 1 => Just(1u32), 1 => Just(3u32)],
         )
             .prop_flat_map(move |(exec, bs, nt, metrics, ign, units, perturb, clear_w)| {
                 let internal = if ign { 0 } else { isz };
@@ -1782,6 +1855,7 @@ fn run_validated(case: &StressCase, api: Box<dyn Api>) -> SResult {
                 let api = api.dup();
                 let (serial, maxtag, viol, barrier, progress) = (&serial, &maxtag, &viol, &barrier, &progress);
                 s.spawn(move || {
+                    progress.register(t);
                     barrier.wait();
                     let mut seen: HashMap<u32, u32> = HashMap::new();
                     for op in script {
@@ -1839,6 +1913,7 @@ fn run_validated(case: &StressCase, api: Box<dyn Api>) -> SResult {
         return v;
     }
     let ok = watch(&progress, Duration::from_millis(1500), &mk_hang, || {
+        progress.register(n);
         for _ in 0..5000 {
             progress.enter(n, 6);
             let r = api.wait();
